@@ -203,7 +203,7 @@ func c02StructCase(res *core.Result, rng *rand.Rand, t reflect.Type, v reflect.V
 	}
 }
 
-var flatScalarTypes = []reflect.Type{gen.TString, gen.TString, gen.TInt, gen.TInt8, gen.TInt64, gen.TUint8, gen.TUint32, gen.TFloat64, gen.TFloat32}
+var flatScalarTypes = []reflect.Type{gen.TString, gen.TString, gen.TInt, gen.TInt8, gen.TInt64, gen.TUint8, gen.TUint32, gen.TFloat64, gen.TFloat32, gen.TGInt, gen.TGStr, gen.TGUint}
 
 func c02FlatCase(res *core.Result, rng *rand.Rand, idx int) {
 	env := &ref.Env{}
